@@ -272,6 +272,21 @@ func Generate(rng *rand.Rand, caseIdx int, thorough bool, nKeys int, thr int) ([
 		var s []Req
 		x := rng.Intn(100)
 		switch {
+		case x < 6 && len(t.Keys) >= 2 && t.TTL > 1:
+			// a reader pushes the primary's min_commit_ts above the commit version between
+			// prewrite and commit; the commit request names the secondaries before the primary
+			t.Fate = "pushed-above-commit-ts-then-commit-secondaries-first"
+			s = append(s, prewrites(t)...)
+			cur := t.Start + 1
+			if t.TTL < 1<<60 {
+				cur = t.Start + uint64(rng.Int63n(int64(t.TTL)))
+			}
+			s = append(s, Req{Kind: "check", Txn: t.ID, Keys: []int{t.Primary}, CurrentTs: cur, CallerTs: t.Commit + 2})
+			s = append(s, Req{Kind: "commit", Txn: t.ID, Keys: append(shuffled(secondaries(t)), t.Primary), CommitTs: t.Commit})
+			if rng.Intn(2) == 0 {
+				s = append(s, check(t, expiredTs(t), 0, true))
+				s = append(s, Req{Kind: "resolve", Txn: t.ID, Keys: shuffled(t.Keys), CommitTs: 0})
+			}
 		case x < 38:
 			t.Fate = "commit"
 			s = append(s, prewrites(t)...)
@@ -437,7 +452,7 @@ func Generate(rng *rand.Rand, caseIdx int, thorough bool, nKeys int, thr int) ([
 
 // RuleCommon describes the shared workload of C17/C18/C19.
 const RuleCommon = "case = seeded history of 3-6 (thorough: up to 8) transactions over 3-4 keys (prefix-related, 0x00/0xFF, long) with unique start/commit timestamps from a counter (start/commit events interleaved fully at random or mostly sequentially with displaced events), " +
-	"each with a fate script (commit; rollback [+late commit]; TTL-expiry check + resolve-rollback + late commit; primary commit + resolve-commit [+rollback]; lock left; rollback before prewrite; check before prewrite; primary expired then commit) " +
+	"each with a fate script (commit; rollback [+late commit]; TTL-expiry check + resolve-rollback + late commit; primary commit + resolve-commit [+rollback]; lock left; rollback before prewrite; check before prewrite; primary expired then commit; min_commit_ts of the primary pushed above the commit version, then a COMMIT naming the secondaries first) " +
 	"over PREWRITE put/delete/lock (split or whole), COMMIT (primary first or all keys in any order), BATCH_ROLLBACK, RESOLVE_LOCK commit/rollback, CHECK_TXN_STATUS (current_ts at/around lock.ts+ttl, ttl in {0,5,25,400,2^64-4}, caller_start_ts pushes, rollback_if_not_exist), " +
 	"scripts interleaved at random, 30% of cases with displaced requests, every request duplicated with p=0.15 at an arbitrary position, 30% of cases re-apply the whole command log, GET/SCAN requests and maintenance actions " +
 	"{rotate, rotate+flush, compact l0->base, l0->l0, ingest-drain, ingest-merge, level, vlog rewrite, RunValueLogGC, close/reopen} between requests (p=0.3 per gap; one case in eight flushes after six consecutive requests and then runs the L0->L0 compaction, which needs four L0 tables), applied through raftstore/kv.Apply on a real NoKV.DB under a drawn option set " +
